@@ -204,6 +204,13 @@ func oracleC01(r *flatRun) (string, string) {
 		if _, ok := r.Out[k]; !ok {
 			return "top-level section dropped: " + sectionClass(k), k
 		}
+		if oracle.IsOpaqueKey(k) {
+			// vendor extensions are free-form data: unchanged literally, "$ref" members in there are not references
+			if d := oracle.LiteralDiff(r.In.InRoot[k], r.Out[k], "/"+k); d != "" {
+				return "extension changed: " + diffClass(d), d
+			}
+			continue
+		}
 		if d := oracle.Diff(at(inRoot, k), at(outRoot, k), eo); d != "" {
 			return "meaning changed under " + sectionClass(k) + ": " + diffClass(d), d
 		}
@@ -638,7 +645,10 @@ func flatCatalogues(c *Ctx) (singles, pairs []gen.Feature) {
 		return
 	}
 	// quick singles: every holder x every content (3 names), the whole alphabet on 3 holders, all other features
-	singles = gen.Catalogue(three, nil, nil)
+	// (pairs of names equal up to a special character: on the 3 sweep holders; in pairs with other features: '#' and '/' only)
+	nearNames := func(ct gen.Content) bool { return ct.Class == "ref-aux-names" || ct.Class == "ref-local-names" }
+	singles = gen.Catalogue(three, nil, func(ct gen.Content) bool { return !nearNames(ct) })
+	singles = append(singles, gen.Catalogue(three, func(hn string) bool { return sweepHolders[hn] }, nearNames)...)
 	rest := gen.Sigma[:0:0]
 	for _, n := range gen.Sigma {
 		if n != "pet" && n != "pet owner" && n != "a/b" {
@@ -652,9 +662,9 @@ func flatCatalogues(c *Ctx) (singles, pairs []gen.Feature) {
 	repContent := map[string]bool{"object": true, "richObject": true, "refAuxRich": true, "refLocal[pet owner]": true, "refAux[pet]": true, "selfRecursiveAux": true, "arrayOfItself": true,
 		"pointer[properties,complex]": true, "pointer[items,simple]": true, "pointer[properties,refAuxCollide]": true, "pointerNestedInTarget": true,
 		"collidingImport[sameName]": true, "collidingImport[sameNameSimple]": true, "collidingImport[twoAtOnce]": true, "twoImportsCaseDifferent": true,
-		"selfRecursiveAuxColliding[simple]": true, "auxDiamondColliding[recursive]": true}
+		"selfRecursiveAuxColliding[simple]": true, "auxDiamondColliding[recursive]": true, "auxDiamondAcrossFiles": true, "refAuxSameNameDifferentDirs": true}
 	pairs = gen.Catalogue(three, func(hn string) bool { return rep[hn] }, func(ct gen.Content) bool { return repContent[ct.Label] })
-	repOther := map[string]bool{"twoPathsManglingAlike": true, "pathPrefixOfAnother": true, "twoCollidingImportsSameGeneratedName": true, "twoInlineSameGeneratedName": true, "paramRef": true, "responseRef": true, "pathItemRef": true, "secondPath": true, "unusedDefinition[a/b]": true, "unusedChain3": true,
+	repOther := map[string]bool{"twoPathsManglingAlike": true, "pathPrefixOfAnother": true, "twoCollidingImportsSameGeneratedName": true, "twoInlineSameGeneratedName": true, "paramRef": true, "responseRef": true, "pathItemRef": true, "pathItemRefWithAuxSchema": true, "paramRefWithAuxSchema": true, "secondPath": true, "unusedDefinition[a/b]": true, "unusedChain3": true,
 		"preNamed[thingOAIGen]": true, "preNamed[getPOKBody]": true}
 	for _, f := range gen.OtherFeatures(three) {
 		if repOther[f.Label] {
